@@ -395,6 +395,15 @@ class FetchAtt:
             case str():
                 match section.upper():
                     case "TEXT":
+                        # For the whole message `BODY[TEXT]` is what follows
+                        # `BODY[HEADER]` in `BODY[]` (nothing at all for a
+                        # message with an empty body).
+                        #
+                        if top_level:
+                            full = msg_as_bytes(msg)
+                            headers = msg_headers_as_bytes(msg)
+                            if full.startswith(headers):
+                                return full[len(headers) :]
                         return msg_as_bytes(msg, render_headers=False)
                     case "MIME":
                         # XXX just use the generator as it is for MIME.. I know
